@@ -12,7 +12,7 @@ PROPS = {
         level_text="Kernel-checked theorems (Props/C14.lean): for every TEID, payload (length+8 <= 65535), QFI < 64, PDU type < 16 the "
                    "model of Message.Encode yields bytes the independent TS 29.281/38.415 reference decoder reads back exactly; the model is "
                    "tied to internal/gtpv1/msg.go by an exhaustive differential run over the QFI x PDU-type x container grid and payload lengths, "
-                   "and the reference decoder is also run on the implementation's own bytes.",
+                   "and the reference decoder is also run on the implementation's own bytes. container_qfi_only — the container is four octets with length field 1 and carries the six-bit QFI only (PPP / RQI clear), whatever else the QER says.",
         level_note="Trusted: Lean kernel; the hand-written reference decoder (reading of TS 29.281 §5.1, TS 38.415 §5.5.2); the hand-written model "
                    "of msg.go (checked against the implementation on every run, not proved equal); harness + upfdrv. "
                    "The message WritePacket assembles is observed on the wire: the S-full 'buf' stream (real Gtp5g.WritePacket, UDP sink as gNB) compares every re-injected datagram "
